@@ -1,4 +1,5 @@
 """Shared helpers for contract files."""
+import os
 import z3
 from pvc import values as V
 from pvc.values import CArr, LArr, Obj, Cx
@@ -51,3 +52,53 @@ def sym_domain(ctx, it, dim, init=True, positive_units=True, check_init=False):
 
 def real_vec(ctx, name, n):
     return to_carr([ctx.sym(f'{name}{k}', 'real') for k in range(n)])
+
+
+# ------------------------------------------------------------------------------------------------ replay of counter-models on the real code
+def _num(v, default=None):
+    """value of a z3 model entry ('3', '1/2', '1.41?') as python number"""
+    from fractions import Fraction
+    if v is None:
+        return default
+    t = str(v).rstrip('?')
+    try:
+        return int(t)
+    except ValueError:
+        try:
+            return float(Fraction(t))
+        except (ValueError, ZeroDivisionError):
+            try:
+                return float(t)
+            except ValueError:
+                return default
+
+
+def replay_on_grid(prop, checks=None):
+    """builder for harnesses whose inputs are a structured grid: the counter-model's grid size (nelx, nely, nelz; element sizes where present) is handed
+    to the property's native contract (native/<prop>.py, the concrete interpretation of the same clauses), which runs on exactly that grid"""
+    def build(name, model):
+        sz = {k: _num(model.get(k, model.get('size:' + k))) for k in ('nelx', 'nely', 'nelz')}
+        if sz['nelx'] is None:
+            return None
+        nx, ny, nz = int(sz['nelx']), int(sz['nely'] or 0), int(sz['nelz'] or 0)
+        if nx < 1 or ny < 0 or nz < 0 or nx * max(ny, 1) * max(nz, 1) > 20000:
+            return None
+        return f'''# replay of a counter-model of obligation {name}
+# inputs taken from the verifier's model: grid {nx} x {ny} x {nz}
+import os, sys, json
+sys.path.insert(0, os.environ.get('REPO_ROOT', '/repo'))
+sys.path.insert(1, {os.path.dirname(os.path.dirname(os.path.abspath(__file__)))!r})
+import native.{prop} as N
+from native.util import Recorder
+N.grids = lambda tier: iter([({nx}, {ny}, {nz})])
+bad = []
+for nm, fn in N.CHECKS:
+    if {checks!r} and nm not in {checks!r}:
+        continue
+    rec = {{'name': nm, 'cases': 0, 'distinct': 0, 'failures': []}}
+    fn(Recorder(rec), 'quick', 0)
+    bad += [(nm, f['what'], f['input']) for f in rec['failures']]
+print(json.dumps(bad[:5], default=str))
+sys.exit(1 if bad else 0)
+'''
+    return build
